@@ -49,6 +49,11 @@ def run(chk):
         r01_234(chk, cr)
     if chk.want("R01.5"):
         r01_5(chk, repo, cr)
+    chk.rule("R01.7", "Cartesian coordinates are consistent with the cell: to_cartesian / to_fractional are right-multiplications by the direct / "
+                      "inverse matrix for every cell, however it was specified (= C12 R12.5)", 4)
+    if chk.want("R01.7"):
+        from ..inherit import inherit
+        inherit(chk, "R01.7", "c12", ["R12.5"])
     chk.rule("R01.6", "memo discipline of class Crystal (= C14 R14.2): every state-changing method drops every memoised quantity, including any newly introduced cache", 2)
     if chk.want("R01.6"):
         from .c14 import crystal_memo_rule
@@ -308,6 +313,14 @@ def r01_234(chk, cr):
         ups = [u for u in updates_of(ev) if u.loops]
         acc = [u for u in ups if u.delta is not None and u.root.as_atom() and u.root.as_atom()[0] == "obj" and u.root.as_atom()[1] == "occupation"]
         st = [u.event for u in ups if u.root.key() == mask.key()]
+        if not acc:
+            # a vectorised merge: accumulating through an array index loses repeated targets (3+ coincident images)
+            from .generic import fancy_aug_sites
+            sites = [(e, w) for e, w in fancy_aug_sites(ev) if "occupation" in e.target.key()]
+            for e, w in sites:
+                chk.ob("R01.4", CR, q, "the occupancy of every absorbed image is added to its survivor (also when one survivor absorbs several images)",
+                       False, node=e.node, fingerprint="fancy-accumulate", expected="a loop over the pairs, or numpy.add.at(occupation, keep, occupation[drop])",
+                       found=w)
         chk.need(len(acc) == 1 and len(st) == 1, f"{q}: merge loop body not recognised")
         a, s = acc[0], st[0]
         loop = a.loops[-1]
